@@ -7,7 +7,7 @@ From ElfioV Require Import Bytes.
 Local Open Scope N_scope.
 
 Inductive fault :=
-| OobRead | OobWrite | NullDeref | DivZero | NullString | UseAfterFree | Hang | PopEmpty.
+| OobRead | OobWrite | NullDeref | DivZero | NullString | UseAfterFree | Hang | PopEmpty | Abort.
 
 Inductive res (A : Type) : Type :=
 | Ok (a : A)
